@@ -25,10 +25,10 @@ import simnet
 PSK = bytes(range(1, 33))
 
 
-def mk_conn(noise):
+def mk_conn(noise, addresses=None):
     net = simnet.Net(base=500.0)
     net.auto_resolve = net.auto_sock = False
-    params = ConnectionParams(addresses=["10.0.0.1"], port=6053, password=None, client_info="verif", keepalive=100000.0,
+    params = ConnectionParams(addresses=list(addresses) if addresses else common.address_form(), port=6053, password=None, client_info="verif", keepalive=100000.0,
                               zeroconf_manager=ZeroconfManager(), noise_psk=noisedev.NoiseDevice.b64(PSK) if noise else None,
                               expected_name=None)
     conn = APIConnection(params, lambda e: None, common.debug_flip(), "verif")
@@ -62,8 +62,8 @@ def adv(net, dt):
     net.loop.advance(dt)
 
 
-def run_start(script):
-    net, conn = mk_conn(False)
+def run_start(script, addresses=None):
+    net, conn = mk_conn(False, addresses)
     loop = net.loop
     st = Stamp(loop, conn.start_connection())
     loop.run_idle()
@@ -175,10 +175,12 @@ def timing(ck):
         if not thorough:
             rng.shuffle(scripts)
             scripts = scripts[:40]
-        for sc in scripts:
+        # the connect bound holds whatever form the configured addresses have (IP literal, .local, bare name, DNS name, …)
+        forms = common.ADDRESS_FORMS if kind == "start" else (None,)
+        for sc, form in itertools.product(scripts, forms):
             sc = list(sc)
             if kind == "start":
-                dur, end = run_start(sc)
+                dur, end = run_start(sc, form)
             elif kind == "disc":
                 dur, end = run_disc(sc)
             else:
@@ -186,7 +188,7 @@ def timing(ck):
             toks = " ".join(f"{o}:{d}" if o != "silent" else "silent" for o, d in sc)
             lines.append(f"tm.phase {base} 0 {toks}")
             impl.append((dur, end))
-            meta.append((kind, sc))
+            meta.append((kind, sc if form is None else sc + [("addresses", list(form))]))
     out = common.run_driver(lines)
     bounds = {"start": 90.0, "finish": 60.0, "disc": 10.0}
     n = 0
